@@ -37,6 +37,32 @@ TEXT = {
  'C19': ("Registration outcomes (invalid / duplicate / created, with and without confirm) model-checked and compared on the code "
          "with missing, extra and hostile fields; the password-policy clause is decided by the Rules component when built.",
          "DESIGN.md 5 C19"),
+ 'C02': ("2FA second-step model (twofa, smsswitch families: victim with TOTP, attacker-owned SMS account, both-SMS accounts, pending-login "
+         "switches inside the resend limit, recover-and-login, OTP logins) model-checked; clauses primaryOnlyParks and secondStepOwnFactor "
+         "(SMS codes are tied to the phone they were sent to through a ghost relation fed by the SMS outbox) on every observed step.", "DESIGN.md 5 C02"),
+ 'C08': ("The middleware decision table (864 rows: session contents x requirement bits x refusal mode x mount-path x storage outcome) is a "
+         "TLA+ spec checked exhaustively (AdmitIff, RefusalExact); every row is executed against the real Middleware2/MountedMiddleware2 "
+         "with several concrete paths/queries; redirect targets are decoded and the login round trip is followed.", "DESIGN.md 5 C08"),
+ 'C11': ("Reference semantics of the client-state writer in TLA+; TLC enumerates every handler program up to length 4/5 and checks "
+         "ExactlyOnce, InOrderSeparated, BeforeFirstByte, StableReads; each program (and seeded long programs judged by the same spec) is "
+         "interpreted against the real writer through five wrapper stacks and the wire is compared exactly.", "DESIGN.md 5 C11"),
+ 'C12': ("One-time password / recovery code / SMS code / TOTP replay life cycles model-checked (otp, twofa families); a ghost registry of "
+         "every secret that ever stopped being live makes a second acceptance visible even when storage was not updated.", "DESIGN.md 5 C12"),
+ 'C13': ("Enrolment / removal / regeneration / e-mail authorisation model-checked from logged-in, cookie-only (half-auth), pending and "
+         "anonymous sessions; clauses changeAuthorised, enableNeedsProof, disableNeedsProof, emailAuthorised, emailAuthSound.", "DESIGN.md 5 C13"),
+ 'C14': ("OAuth2 start/callback interleavings across browsers and providers model-checked (state replay, cross-browser state, provider "
+         "error, exchange failure under both error handlers); PID codec round trip and injectivity enumerated by TLC and executed.", "DESIGN.md 5 C14"),
+ 'C15': ("Browser URL resolution (worst case over concretisations) and the guard as a TLA+ spec over 12 URL-significant symbols; "
+         "NoOffSite/StillUseful for every string up to length 4/5; every string sent through the password (form+JSON), OTP, TOTP, SMS "
+         "(one- and two-step) and OAuth2 flows, decision compared and Location classified by an independent oracle.", "DESIGN.md 5 C15"),
+ 'C16': ("Non-interference stated as a TLA+ state invariant over the pure step function (every reachable state of the lock/recover/otp "
+         "families); on the code, forked paired replay with byte-level comparison of status, headers, body and client-state events.", "DESIGN.md 5 C16"),
+ 'C17': ("Every step of every replayed/random scenario is scanned for every plaintext secret known to the harness in all stored fields "
+         "and log lines (clause noPlaintextStoredOrLogged); mail recipients are compared with the owner of the mailed token.", "DESIGN.md 5 C17"),
+ 'C18': ("Failure injected at every backend call of requests inside scripted and random scenarios; each faulted step judged by TLC against "
+         "noPanic, noFakeSuccess (fault-free spec step as reference), noSessionOnUnsavedConsumption, onlyInvalidates.", "DESIGN.md 5 C18"),
+ 'C20': ("Independence of clients on disjoint accounts as a TLC invariant over request-atomic steps; concurrent scripted clients on one "
+         "instance of the shipped default components under the Go race detector, transcripts compared with solo runs.", "DESIGN.md 5 C20"),
 }
 
 
